@@ -449,6 +449,21 @@ class Engine:
                 self.alive = [False] * len(self.alive)
         return d
 
+    def fork_both(self, cond):
+        """branch whose two sides are known to be feasible by construction (independent finite tags):
+        no solver query"""
+        cond = z3.simplify(cond)
+        i = len(self.decisions)
+        if i < len(self.prefix):
+            d, rec = self.prefix[i]
+        else:
+            d, rec = True, True
+            self.worklist.append(self.decisions + [(False, True)])
+        self.decisions.append((d, rec))
+        self.pc.append(cond if d else z3.Not(cond))
+        self.alive = [False] * len(self.alive)
+        return d
+
     def choose(self, var, n):
         """fork over the values 0..n-1 of a z3 Int tag"""
         for i in range(n - 1):
